@@ -443,6 +443,12 @@ func TestC20Session(t *testing.T) {
 		tc := newTwoChain(tcOpts{nExecutors: rapid.IntRange(1, 2).Draw(rt, "executors")})
 		l2 := tc.l2
 		exec := tc.executors[rapid.IntRange(0, len(tc.executors)-1).Draw(rt, "relayer")].Str
+		if rapid.IntRange(0, 3).Draw(rt, "presetMetadata") == 0 {
+			// the L2 bank module already has display metadata for the bridged token (written by the operator's genesis)
+			d := tcL2Denom(tc, "uinit")
+			l2.BK.SetDenomMetaData(l2.Ctx, banktypes.Metadata{Base: d, Display: d, Name: "preset", Symbol: "PRE", DenomUnits: []*banktypes.DenomUnit{{Denom: d, Exponent: 0}}})
+			c.Class("session/l2-bank-metadata-preset")
+		}
 		n := rapid.IntRange(0, 3).Draw(rt, "processed")
 		var pend []*pendingDeposit
 		for i := 0; i < n+6; i++ {
